@@ -82,7 +82,17 @@ def run_property(pid: str, world: World) -> Checker:
         ctx = Ctx(world)
         from .restructured import restructured_functions
 
-        report.RESTRUCTURED = restructured_functions(ctx.raw_world)
+        restructured = restructured_functions(ctx.raw_world)
+        # a class inherits the methods of its bases: obligations anchored at a subclass of a restructured class are about that code too
+        try:
+            for k in ctx.table.classes.values():
+                for anc in k.mro[1:]:
+                    if anc.qual in restructured and k.qual not in restructured:
+                        restructured[k.qual] = f'inherits from {anc.name}, which {restructured[anc.qual]}'
+                        break
+        except (AnalysisError, Incomplete):
+            pass
+        report.RESTRUCTURED = restructured
         mod.run(ctx, ck)
         _common_rules(pid, ctx, ck)
     except Incomplete as exc:
